@@ -11,7 +11,7 @@
 (* and reported as a verdict line <<"V", line, case, property, reason>>,   *)
 (* so that the rest of the trace is still checked.                         *)
 (***************************************************************************)
-EXTENDS Ops, Json, IOUtils, TLC
+EXTENDS OpsImpl, Json, IOUtils, TLC
 
 Trace == ndJsonDeserialize(IOEnv.TRACE)
 
@@ -70,12 +70,24 @@ Reason(i) ==
   ELSE IF ev.op = "optimize" /\ ~WriteBackOK(ev.wb) THEN "optimized-list-no-longer-written-and-read-back-as-before"
   ELSE "ok"
 
+\* implementation layer: the transcribed algorithm predicts the list the code leaves exactly (order among ties, which
+\* object survives a merge, which pieces are new objects); a call the normative relation accepts but the
+\* transcription does not predict is reported as DRIFT (the model no longer describes the code), never as a violation
+ImplPredicts(ev) ==
+  CASE ev.op \in {"add", "add-inv"} -> ev.post.items = AddImpl(ev.pre.items, ev.a)
+    [] ev.op = "fragment" -> ev.post.items = FragmentImpl(ev.pre.items, ev.a)
+    [] ev.op \in {"unfragment", "unfragment-inv"} -> ev.post.items = UnfragmentImpl(ev.pre.items)
+    [] ev.op = "force" -> ev.post.items = ForceDurationImpl(ev.pre.items, ev.a, ev.b # 0)
+    [] OTHER -> TRUE
+
 Init == l = 1
 
 Step ==
   /\ l <= Len(Trace)
   /\ LET r == Reason(l)
-     IN  IF r = "ok" THEN TRUE ELSE PrintT(<<"V", l, Trace[l].n, PropertyOf(Trace[l].op), r>>)
+     IN  IF r = "ok"
+         THEN (IF ImplPredicts(Trace[l]) THEN TRUE ELSE PrintT(<<"V", l, Trace[l].n, "DRIFT", "impl-layer-does-not-predict-" \o Trace[l].op>>))
+         ELSE PrintT(<<"V", l, Trace[l].n, PropertyOf(Trace[l].op), r>>)
   /\ l' = l + 1
 
 Spec == Init /\ [][Step]_vars
